@@ -34,6 +34,18 @@ pub fn scratch_base() -> PathBuf {
             .map(PathBuf::from)
             .unwrap_or_else(|_| verif_dir().join("sim/target/scratch"))
     };
+    // generated commands contain the scratch path unquoted: plain characters only
+    let plain = |p: &Path| {
+        p.display()
+            .to_string()
+            .chars()
+            .all(|c| c.is_ascii_alphanumeric() || "/._-".contains(c))
+    };
+    let base = if plain(&base) {
+        base
+    } else {
+        verif_dir().join("sim/target/scratch")
+    };
     base.join(format!("txtpp-verif.{}", std::process::id()))
 }
 
@@ -465,8 +477,25 @@ pub fn check(prop: &str, tier_s: &str) -> i32 {
     }
     let mut all_v: Vec<ViolationRec> = b.violations.clone();
     for (idx, st) in &b.aborts {
-        // a worker process died inside a case
+        // a worker process died inside a case: once more in a fresh process, to tell txtpp
+        // bringing the process down from a kill that came from outside (OOM killer, operator)
         let case = engines::gen_case(prop, seed, *idx, tier);
+        let died_again = {
+            let dir = scratch_base().join("confirm");
+            let _ = std::fs::create_dir_all(&dir);
+            let f = dir.join(format!("case-{idx}.json"));
+            let _ = std::fs::write(&f, serde_json::to_string(&case).unwrap_or_default());
+            let exe = std::env::current_exe().expect("current exe");
+            let mut c = Command::new(exe);
+            c.arg("runcase").arg(&f).stdin(Stdio::null()).stdout(Stdio::null()).stderr(Stdio::null());
+            let r = engines::common::status_with_timeout(&mut c, 300);
+            let _ = std::fs::remove_dir_all(&dir);
+            !matches!(r, Ok(Some(0)))
+        };
+        if !died_again {
+            println!("note: a worker process died ({st}) while running case {idx}; the case runs to completion in a fresh process, so the death is not attributed to it");
+            continue;
+        }
         if prop == "C18" {
             let mut oc = CaseOutcome::default();
             oc.violate("C18", "process-abort", format!("worker process died ({st}) while running case {idx}"));
